@@ -523,6 +523,8 @@ type Clause struct {
 	Mods  []ModItem
 	File  string
 	Line  int
+	Uses  []string // lemmas made available to the proof of this clause
+	Needs []string // labels of the assumed invariant clauses this proof may use (empty: all)
 }
 
 type ModItem struct {
@@ -550,6 +552,12 @@ type FuncContract struct {
 	GVars    []GVarDecl
 	GResults []GVarDecl
 	Updates  []*UpdateClause
+	Asserts  []*AssertClause
+}
+
+type AssertClause struct {
+	Site string
+	C    *Clause
 }
 
 type GVarDecl struct {
@@ -606,7 +614,7 @@ type Contracts struct {
 	Axioms []*Clause
 }
 
-var kwRe = regexp.MustCompile(`^(func|extern|requires|ensures|modifies|loop|spec|pred|lemma|ghost|at-return|option|axiom|pure|induction|uses|gvar|update|ghostresult)\b`)
+var kwRe = regexp.MustCompile(`^(func|extern|requires|ensures|modifies|loop|spec|pred|lemma|ghost|at-return|option|axiom|pure|induction|uses|gvar|update|ghostresult|assert)\b`)
 var tagRe = regexp.MustCompile(`^\[([^\]]*)\]\s*`)
 
 func newContracts() *Contracts {
@@ -733,6 +741,22 @@ func (cs *Contracts) parseFile(path, pkg string) error {
 			} else {
 				cur.GResults = append(cur.GResults, d)
 			}
+		case "assert":
+			if cur == nil {
+				return fail(fmt.Errorf("assert outside func"))
+			}
+			ci := strings.Index(rest, ":")
+			if ci < 0 {
+				return fail(fmt.Errorf("bad assert clause %q", rest))
+			}
+			ac := &AssertClause{Site: strings.TrimSpace(rest[:ci]), C: &Clause{Kind: "assert", File: path, Line: it.line}}
+			body := ac.C.takeTags(strings.TrimSpace(rest[ci+1:]))
+			e, err := parseExpr(body)
+			if err != nil {
+				return fail(err)
+			}
+			ac.C.Text, ac.C.E = body, e
+			cur.Asserts = append(cur.Asserts, ac)
 		case "update":
 			if cur == nil {
 				return fail(fmt.Errorf("update outside func"))
@@ -853,13 +877,18 @@ func (cs *Contracts) parseFile(path, pkg string) error {
 				return fail(fmt.Errorf("bad spec header"))
 			}
 			sf := &SpecFunc{Name: strings.TrimSpace(rest[:i]), Pkg: pkg}
-			if strings.HasPrefix(sf.Name, "ordered ") {
-				sf.Ordered = true
-				sf.Name = strings.TrimSpace(sf.Name[8:])
-			}
-			if strings.HasPrefix(sf.Name, "noinline ") {
-				sf.NoInline = true
-				sf.Name = strings.TrimSpace(sf.Name[9:])
+			for changed := true; changed; {
+				changed = false
+				if strings.HasPrefix(sf.Name, "ordered ") {
+					sf.Ordered = true
+					sf.Name = strings.TrimSpace(sf.Name[8:])
+					changed = true
+				}
+				if strings.HasPrefix(sf.Name, "noinline ") {
+					sf.NoInline = true
+					sf.Name = strings.TrimSpace(sf.Name[9:])
+					changed = true
+				}
 			}
 			sf.Params = parseParams(rest[i+1 : j])
 			tail := strings.TrimSpace(rest[j+1:])
@@ -928,6 +957,10 @@ func (c *Clause) takeTags(s string) string {
 		for _, t := range strings.Fields(strings.ReplaceAll(m[1], ",", " ")) {
 			if regexp.MustCompile(`^C\d\d$`).MatchString(t) {
 				c.Props = append(c.Props, t)
+			} else if strings.HasPrefix(t, "needs=") {
+				c.Needs = append(c.Needs, strings.Split(t[6:], "+")...)
+			} else if strings.HasPrefix(t, "uses=") {
+				c.Uses = append(c.Uses, strings.Split(t[5:], "+")...)
 			} else {
 				c.Label = t
 			}
